@@ -93,6 +93,9 @@ pub struct Script {
     pub cancel_at: Option<u8>,
     /// ... after the inner operations (true) or before them (false)
     pub cancel_late: bool,
+    /// the panic is raised from inside the nested fp's transformer (two fp frames unwind)
+    #[serde(default)]
+    pub cancel_in_nested: bool,
 }
 
 #[derive(Clone, Copy, Debug, PartialEq, Eq, Serialize, Deserialize)]
@@ -147,6 +150,9 @@ pub enum Op {
     Formula(F, u64, u8),
     ReEval(usize),
     Convert(usize),
+    /// `cancel` for formula clients: to_free_index of a symbol that is not a free variable of an
+    /// earlier formula panics by contract; the client catches it and carries on
+    FreeIndexPanic(usize),
 }
 
 impl Op {
@@ -190,6 +196,7 @@ impl Op {
             Op::Formula(..) => "formula.eval".into(),
             Op::ReEval(_) => "formula.re-eval".into(),
             Op::Convert(_) => "convert".into(),
+            Op::FreeIndexPanic(_) => "formula.to_free_index(non-free)".into(),
         }
     }
 
@@ -307,6 +314,7 @@ fn gen_script(rng: &mut Prng, faults: &FaultCfg) -> Script {
         nested,
         cancel_at,
         cancel_late: rng.coin(),
+        cancel_in_nested: nested && rng.chance(1, 3),
     }
 }
 
@@ -489,12 +497,13 @@ pub fn gen_plan(rng: &mut Prng, property: &str, tier: &Tier) -> EnvPlan {
                     _ => Op::SetDrop(a),
                 }
             }
-            2 => match rng.weighted(&[5, 2, 1]) {
+            2 => match rng.weighted(&[5, 2, 1, if faults.cancel { 1 } else { 0 }]) {
                 0 if !gen_cfg.pool.is_empty() => {
                     let f = fast::gen_formula(rng, &gen_cfg);
                     Op::Formula(f, rng.next_u64(), rng.below(3) as u8)
                 }
                 1 => Op::ReEval(sel(rng)),
+                3 => Op::FreeIndexPanic(sel(rng)),
                 _ => Op::Convert(sel(rng)),
             },
             _ => {
@@ -661,7 +670,12 @@ fn apply<S: BDDSymbol>(
                     let _ = env.exists(vec![sym(0)], env.or(t, Rc::clone(&x)));
                 }
                 if s.nested {
-                    let _ = env.fp(Rc::clone(&x), |y| env.or(y, Rc::clone(&h)));
+                    let _ = env.fp(Rc::clone(&x), |y| {
+                        if s.cancel_in_nested && s.cancel_at == Some(k as u8) {
+                            std::panic::panic_any(ScriptCancel);
+                        }
+                        env.or(y, Rc::clone(&h))
+                    });
                 }
                 if s.cancel_at == Some(k as u8) && s.cancel_late {
                     std::panic::panic_any(ScriptCancel);
@@ -2144,6 +2158,24 @@ impl<'p> Exec<'p, NWorld> {
                         return Err(viol("C13", "I3", &format!("{opname}@{l}"), step_no, format!("re-evaluation panicked: {m} @ {l}")));
                     }
                     _ => {}
+                }
+            }
+            Op::FreeIndexPanic(k) => {
+                if self.ext.formulas.is_empty() {
+                    return Ok(true);
+                }
+                let (pf, _) = &self.ext.formulas[k % self.ext.formulas.len()];
+                let ghost = NamedSymbol {
+                    name: Rc::new("__not_a_variable".to_string()),
+                    id: usize::MAX - 3,
+                };
+                match catch(|| pf.to_free_index(&ghost)) {
+                    Caught::Panic(..) => {
+                        bump(&mut self.stats, "fault.cancel");
+                        self.faults_fired += 1;
+                        self.cancelled_before = true;
+                    }
+                    _ => bump(&mut self.stats, "probe.to_free_index_of_ghost_returned"),
                 }
             }
             Op::Convert(sel) => {
